@@ -54,7 +54,7 @@ func c01R1(p *core.Program, r *core.Report, w *core.Func, parse *ast.CallExpr, f
 	// every effect in the write function that transfers bytes
 	nodeCalls := 0
 	for _, e := range fileEffects(p) {
-		if e.In.Root() != w {
+		if !w.Has(e.In) {
 			continue
 		}
 		switch e.Kind {
